@@ -14,6 +14,7 @@
   (`rowSpec`: scatter of slice `i`); `transposeDense` — its transpose.
 -/
 import CTM.Lemmas.SparseV2
+import CTM.Generated.SparseConsts
 
 namespace CTM.C13
 open CTM.Chunking CTM.Sparse
@@ -65,6 +66,21 @@ theorem budget_floor (countGb loadGb elGb : Rat) (dataBytes indptrBytes indicesB
     100 ≤ (Budget.of countGb loadGb elGb dataBytes indptrBytes indicesBytes).el := by
   unfold Budget.of
   exact ⟨Nat.le_max_left _ _, Nat.le_max_left _ _, Nat.le_max_left _ _⟩
+
+/-- **source constants** (translation tie): the minimum chunk sizes and the
+per-entry overhead re-extracted from the current `utils/csc_to_csr.py`
+(`CTM/Generated/SparseConsts.lean`, rewritten by
+`harness/ctmverif/sparse_translate.py` on every run) are the ones the model's
+`Budget.of` uses, and they are `≥ 1` — which is all the theorems below need
+from the budget.  Checked by kernel evaluation at build time. -/
+theorem source_constants :
+    CTM.Generated.SparseConsts.countMinLoadChunk = minCountChunk ∧
+    CTM.Generated.SparseConsts.transposeMinLoadChunk = minLoadChunk ∧
+    CTM.Generated.SparseConsts.transposeMinElements = minElements ∧
+    CTM.Generated.SparseConsts.dexBytes = dexBytes ∧
+    1 ≤ CTM.Generated.SparseConsts.countMinLoadChunk ∧
+    1 ≤ CTM.Generated.SparseConsts.transposeMinLoadChunk ∧
+    1 ≤ CTM.Generated.SparseConsts.transposeMinElements := by decide
 
 /-! ## the transposition at bucket level -/
 
